@@ -178,6 +178,11 @@ class RefNs:
                     self.boxes[b] = self.inbox
                     self.inbox = self.fresh()
                     return
+                if self.layout is not None:
+                    # RFC 3501 6.3.5/6.3.3: the server SHOULD create the superiors it needs
+                    parts = b.split('/')
+                    for i in range(1, len(parts)):
+                        self.boxes.setdefault('/'.join(parts[:i]), self.fresh())
                 moved = {}
                 for m in list(self.boxes):
                     if m == a or m.startswith(a + '/'):
@@ -210,7 +215,15 @@ PARTS = ['a', 'b', 'c', 'ab', 'A', 'x y', 'Sent', 'Trash', 'INBOX', 'inbox', 'In
          '\U0001f600', '#x', '{3}', 'a b ', ' ']
 
 
-def gen_name(rng, pool=None) -> str:
+TAME = ['a', 'b', 'c', 'ab', 'A', 'x y', 'é', '日本', 'Sent', 'q', 'InBox', 'a*', '&']
+
+
+def gen_name(rng, pool=None, tame: float = 0.0) -> str:
+    if rng.random() < tame:
+        if pool and rng.random() < 0.5:
+            base = rng.choice(pool)
+            return base if rng.random() < 0.6 else base + '/' + rng.choice(TAME)
+        return '/'.join(rng.choices(TAME, k=rng.choice([1, 1, 2, 2, 3])))
     r = rng.random()
     if pool and r < 0.45:
         return rng.choice(pool)
@@ -261,17 +274,44 @@ def gen_program(rng, backend: str, initial) -> list:
     pool = list(initial)
     prog = []
     n_ops = rng.randint(4, 9)
+    tame = 0.0 if backend == 'dict' else 0.65
+    sim = RefNs(backend, {n: n for n in initial})
+
+    def advance(op):
+        # keep an approximate picture of what exists, to aim later commands
+        try:
+            want, ap = sim.expect(op)
+            if want == 'ok' and (sim.layout is None or all(
+                    md_valid_name(sim.layout, sim.norm(x)) for x in op[1:])):
+                ap()
+        except Exception:
+            pass
+
+    def existing():
+        return sorted(sim.boxes) or pool
+
     for _ in range(n_ops):
         r = rng.random()
         if r < 0.30:
-            n = gen_name(rng, pool if rng.random() < 0.3 else None)
+            n = gen_name(rng, pool if rng.random() < 0.3 else None, tame)
+            if backend == 'mdfs' and '/' in n and rng.random() < 0.6:
+                # fs needs the parents first
+                parts = n.split('/')
+                for i in range(1, len(parts)):
+                    prog.append(('create', '/'.join(parts[:i])))
+                    advance(prog[-1])
             op = ('create', n)
             pool.append(n)
         elif r < 0.42:
-            op = ('delete', gen_name(rng, pool))
+            op = ('delete', rng.choice(existing()) if rng.random() < 0.6 and existing()
+                  else gen_name(rng, pool))
         elif r < 0.62:
-            a = gen_name(rng, pool + (['INBOX'] if rng.random() < 0.3 else []))
-            b = gen_name(rng, pool if rng.random() < 0.25 else None)
+            a = gen_name(rng, pool + (['INBOX'] if rng.random() < 0.15 else []))
+            if existing() and rng.random() < 0.6:
+                a = rng.choice(existing())
+                if rng.random() < 0.2 and '/' in a:
+                    a = a.rsplit('/', 1)[0]
+            b = gen_name(rng, pool if rng.random() < 0.25 else None, tame)
             if rng.random() < 0.1:
                 b = a + '/' + rng.choice(['b', 'c/d'])
             op = ('rename', a, b)
@@ -290,6 +330,7 @@ def gen_program(rng, backend: str, initial) -> list:
             q = gen_query(rng, pool)
             op = (rng.choice(['list', 'lsub']), q[0], q[1])
         prog.append(op)
+        advance(op)
         # observe the whole namespace after every step
         prog.append(('list', '', '*'))
         prog.append(('lsub', '', '*'))
@@ -499,30 +540,19 @@ def monitor_program(ctx, backend, prog_id, init, steps) -> None:
                          'list_wrong', step=i)
                     break
         if cc == 0 and k == 'lsub' and op[2] != '':
-            full = ref_entries(ref.subs)
-            want_e = {n: a for n, a in full.items() if ref_match_entry(ref.norm(op[1]) + op[2], n)}
+            q = ref.norm(op[1]) + op[2]
+            want_e = {n: a for n, a in ref_entries(ref.subs).items() if ref_match_entry(q, n)}
             got = dict(lines)
-            for n in sorted(set(want_e) | set(got)):
-                w, g = want_e.get(n), got.get(n)
-                if w == g:
-                    continue
-                if w is None and n == 'INBOX' and 'INBOX' not in ref.subs:
+            if want_e != got or len(got) != len(lines):
+                # the one known deviation: INBOX is always in the subscribed tree
+                alt = {n: a for n, a in ref_entries(ref.subs | {'INBOX'}).items()
+                       if ref_match_entry(q, n)}
+                if alt == got and len(got) == len(lines):
                     fail('lsub_exact', 'LSUB lists INBOX although it is not subscribed',
                          'lsub_inbox_always', step=i)
-                elif g is None and not any((m == n or m.startswith(n + '/')) and m in ref.names()
-                                           for m in ref.subs):
-                    fail('lsub_exact', f'LSUB omits the subscribed name {n!r} because no such '
-                         'mailbox exists', 'lsub_missing_omitted', step=i)
-                elif w is not None and g is not None and (1 in w) == (1 in g):
-                    # children attributes computed over subscribed-and-existing only
-                    fail('lsub_exact', f'LSUB attributes of {n!r}: expected {w} got {g}',
-                         'lsub_attr_children', step=i)
-                elif w is not None and g is not None:
-                    fail('lsub_exact', f'LSUB \\Noselect of {n!r}: expected {w} got {g}',
-                         'lsub_attr_noselect', step=i)
                 else:
-                    fail('lsub_exact', f'LSUB {op[1]!r} {op[2]!r}: {n!r} expected {w} got {g}; '
-                         f'subscribed {sorted(ref.subs)!r}', 'lsub_wrong', step=i)
+                    fail('lsub_exact', f'LSUB {op[1]!r} {op[2]!r}: expected {sorted(want_e.items())!r} '
+                         f'got {lines!r}; subscribed {sorted(ref.subs)!r}', 'lsub_wrong', step=i)
         if (k in ('list', 'lsub')) and cc == 0 and op[2] == '':
             if lines != [('', [1])]:
                 fail('list_exact', f'LIST with an empty pattern must return the delimiter line: {lines!r}',
@@ -572,31 +602,55 @@ def _print_faithful(n: str) -> bool:
 
 
 # =====================================================================
+# Coq evaluation jobs (run concurrently at the end of the Python work)
+# =====================================================================
+class Jobs:
+    def __init__(self):
+        self.jobs = []
+
+    def add(self, name, header, typ, cases, chk, on_bad, **kw):
+        self.jobs.append((name, header, typ, cases, chk, on_bad, kw))
+
+    def run(self, ctx, workers=3):
+        from concurrent.futures import ThreadPoolExecutor
+
+        def one(j):
+            name, header, typ, cases, chk, on_bad, kw = j
+            return j, ctx.run_cases(name, header, typ, cases, chk, **kw)
+        with ThreadPoolExecutor(max_workers=workers) as ex:
+            for j, bad in ex.map(one, self.jobs):
+                for i in bad[:5]:
+                    j[5](i)
+        self.jobs = []
+
+
+JOBS = Jobs()
+
+
+# =====================================================================
 # sections
 # =====================================================================
 def sec_tables(ctx) -> None:
-    """pin the character tables the model hard-codes"""
-    import re
+    """INBOX case folding of pymap.parsing.specials.Mailbox: exhaustive over
+    every character whose upper() is a letter of INBOX, at every position"""
     from pymap.parsing.specials.mailbox import Mailbox
-    ups = sorted(c for c in range(0x110000) if not 0xd800 <= c < 0xe000
-                 and set(chr(c).upper()) <= set('INBOX'))
-    if ups != [0x42, 0x49, 0x4e, 0x4f, 0x58, 0x62, 0x69, 0x6e, 0x6f, 0x78, 0x131]:
-        ctx.disagreement('upper_table', {'chars': [hex(c) for c in ups]})
-    ctx.count(('upper_table',))
-    for s in ('ınbox', 'INBOX', 'inbox', 'iNbOx', 'inbo', 'inboxx', 'İnbox', 'INBÖX'):
+    cand = {u: [chr(c) for c in range(0x110000) if not 0xd800 <= c < 0xe000 and chr(c).upper() == u]
+            for u in 'INBOX'}
+    ctx.extra['inbox_fold_candidates'] = {u: [hex(ord(x)) for x in v] for u, v in cand.items()}
+    names = [''.join(t) for t in itertools.product(*(cand[u] for u in 'INBOX'))]
+    names += ['inbo', 'inboxx', 'İnbox', 'INBÖX', 'xINBOX', '', 'Inbox/a', 'inbox ', ' inbox',
+              'INBOX\n', 'ｉnbox']
+    for s in names:
         got = Mailbox(s).value
-        ctx.count(('norm', s))
-        if got == 'INBOX' and ascii_lower(s) != 'inbox':
-            ctx.failure('inbox_protected', f'the name {s!r} (not an ASCII case variant) is folded to INBOX',
-                        {'name': s}, {'kind': 'inbox_unicode_fold'})
-    # norm correspondence
-    names = ['ınbox', 'INBOX', 'inbox', 'iNbOx', 'inbo', 'inboxx', 'İnbox', 'xINBOX', '',
-             'Inbox/a', 'ıNBOX', 'inböx']
+        ctx.count(('norm', s), nontrivial=got == 'INBOX')
+        want = 'INBOX' if ascii_lower(s) == 'inbox' else s
+        if got != want:
+            ctx.failure('inbox_protected', f'the name {s!r} is read as {got!r}',
+                        {'name': s}, {'kind': 'inbox_fold'})
     cases = [T.pair(U.enc_name(s), U.enc_name(Mailbox(s).value)) for s in names]
-    bad = ctx.run_cases('norm', HEADER + 'Definition chk_norm (c : name * name) : bool := '
-                        'name_eqb (norm (fst c)) (snd c).\n', 'name * name', cases, 'chk_norm')
-    for i in bad:
-        ctx.disagreement('norm', {'name': names[i]})
+    JOBS.add('norm', HEADER + 'Definition chk_norm (c : name * name) : bool := '
+             'name_eqb (norm (fst c)) (snd c).\n', 'name * name', cases, 'chk_norm',
+             lambda i: ctx.disagreement('norm', {'name': names[i]}))
 
 
 def impl_match(query: str, name: str) -> bool:
@@ -625,13 +679,13 @@ def sec_glob(ctx) -> None:
                 ctx.failure('list_exact', f'pattern {p!r} vs name {n!r}: listed={g}',
                             {'pattern': p, 'name': n}, {'kind': 'glob_wrong'})
         ctx.count(('glob_ex', p), nontrivial=any(got))
-        cases.append(T.pair(U.enc_name(p), T.lst(U.enc_name(n) for n in names),
-                            T.lst(T.boolean(g) for g in got)))
+        cases.append(T.pair(U.enc_name(p), T.lst(T.boolean(g) for g in got)))
         keep.append(p)
-    bad = ctx.run_cases('glob_exhaustive', HEADER, 'list N * list (list N) * list bool', cases,
-                        'chk_glob_many', shard=40)
-    for i in bad[:5]:
-        ctx.disagreement('glob_exhaustive', {'pattern': keep[i]})
+    ex_keep = keep
+    ns_def = ('Definition NS : list (list N) := ' + T.lst(U.enc_name(n) for n in names) + '.\n')
+    JOBS.add('glob_exhaustive', HEADER + ns_def, 'list N * list bool', cases,
+             'chk_glob_many NS', lambda i: ctx.disagreement('glob_exhaustive', {'pattern': ex_keep[i]}),
+             shard=ctx.scale(120, 150))
     ctx.extra['glob_exhaustive'] = {'patterns': len(pats), 'names': len(names)}
     # (2) random patterns with odd characters, through list_matching (incl. INBOX rule)
     alphabet = ['a', 'b', '/', '*', '%', '\n', '.', '\\', '[', ']', '^', '$', '(', '|', '?', '+',
@@ -689,11 +743,13 @@ def sec_glob(ctx) -> None:
                 cases.append(T.pair(U.enc_name(base_q), U.enc_name(nm), T.boolean(got)))
                 keep.append((base_q, nm))
     ctx.sample({'glob_case': repr(keep[-1])})
-    for i in ctx.run_cases('glob_random', HEADER, 'list N * list N * bool', cases, 'chk_glob')[:5]:
-        ctx.disagreement('glob_random', {'query': keep[i][0], 'name': keep[i][1],
-                                         'impl': impl_match(*keep[i])})
-    for i in ctx.run_cases('glob_inbox', HEADER, 'list N * bool', ci_cases, 'chk_glob_inbox')[:5]:
-        ctx.disagreement('glob_inbox', {'query': ci_keep[i], 'impl': impl_match(ci_keep[i], 'INBOX')})
+    JOBS.add('glob_random', HEADER, 'list N * list N * bool', cases, 'chk_glob',
+             lambda i: ctx.disagreement('glob_random', {'query': keep[i][0], 'name': keep[i][1],
+                                                        'impl': impl_match(*keep[i])}), shard=600)
+    JOBS.add('glob_inbox', HEADER, 'list N * bool', ci_cases, 'chk_glob_inbox',
+             lambda i: ctx.disagreement('glob_inbox', {'query': ci_keep[i],
+                                                       'impl': impl_match(ci_keep[i], 'INBOX')}),
+             shard=600)
 
 
 def sec_tree(ctx) -> None:
@@ -731,11 +787,20 @@ def sec_tree(ctx) -> None:
             ('tree_list', 'list name * list (name * list N)', lc, 'chk_tree_list'),
             ('tree_get', 'list name * name * option (list N)', gc, 'chk_tree_get'),
             ('tree_renames', 'list name * name * name * list (name * name)', rc, 'chk_tree_renames')):
-        for i in ctx.run_cases(nm, HEADER, typ, cs, chk)[:5]:
-            ctx.disagreement(nm, {'case': repr(keep[i])})
+        JOBS.add(nm, HEADER, typ, cs, chk,
+                 (lambda nm: lambda i: ctx.disagreement(nm, {'case': repr(keep[i])}))(nm), shard=400)
 
 
 def enc_case(backend, init, steps) -> str:
+    it = U.Interner()
+    U.interning(it)
+    try:
+        return it.wrap(_enc_case(backend, init, steps))
+    finally:
+        U.interning(None)
+
+
+def _enc_case(backend, init, steps) -> str:
     ops = T.lst(T.pair(U.enc_op(op), U.enc_expect(e)) for op, e, *_ in steps)
     by = {n: (st, ro) for n, st, ro in init}
     ist, iro = by['INBOX']
@@ -786,12 +851,13 @@ def sec_programs(ctx, backend: str, n_prog: int) -> None:
     typ = ('N * mbox * list (name * mbox) * N * list (op * expect)' if backend == 'dict'
            else 'layout * mbox * N * list (op * expect)')
     chk = 'chk_dict' if backend == 'dict' else 'chk_md'
-    bad = ctx.run_cases('programs_' + backend.replace('+', 'p'), HEADER, typ, cases, chk, shard=25)
-    for i in bad[:5]:
+    def on_bad(i):
         init, steps = results[i]
         ctx.disagreement(f'programs_{backend}',
                          {'program': [list(o) for o, *_ in steps],
                           'observed': [(e[0], e[1], e[2]) for _o, e, *_ in steps][:60]})
+    JOBS.add('programs_' + backend.replace('+', 'p'), HEADER, typ, cases, chk, on_bad,
+             shard=ctx.scale(40, 60))
 
 
 def run(ctx) -> None:
@@ -812,9 +878,10 @@ def run(ctx) -> None:
     sec_tables(ctx)
     sec_glob(ctx)
     sec_tree(ctx)
-    sec_programs(ctx, 'dict', ctx.scale(260, 6000))
-    sec_programs(ctx, 'md++', ctx.scale(170, 4500))
-    sec_programs(ctx, 'mdfs', ctx.scale(170, 4500))
+    sec_programs(ctx, 'dict', ctx.scale(240, 6000))
+    sec_programs(ctx, 'md++', ctx.scale(150, 4500))
+    sec_programs(ctx, 'mdfs', ctx.scale(150, 4500))
+    JOBS.run(ctx)
 
 
 def replay(ctx, obj) -> int:
